@@ -3,6 +3,7 @@
 //! so these definitions win at link time) and forwards with raw syscalls.  Each call is
 //! reported to the installed observer after it returned.
 
+use std::cell::Cell;
 use std::sync::atomic::{AtomicBool, Ordering};
 use std::sync::{Arc, RwLock};
 
@@ -70,6 +71,11 @@ fn fd_name(fd: i32) -> String {
     }
 }
 
+thread_local! {
+    /// file byte range (offset, length) covered by the msync being reported on this thread
+    pub static MSYNC_RANGE: Cell<(u64, u64)> = Cell::new((0, u64::MAX));
+}
+
 fn addr_name(addr: usize) -> String {
     if let Ok(maps) = std::fs::read_to_string("/proc/self/maps") {
         for line in maps.lines() {
@@ -80,6 +86,8 @@ fn addr_name(addr: usize) -> String {
             let hi = usize::from_str_radix(r.next().unwrap_or("0"), 16).unwrap_or(0);
             if addr >= lo && addr < hi {
                 let path = line.split_whitespace().nth(5).unwrap_or("");
+                let map_off = u64::from_str_radix(line.split_whitespace().nth(2).unwrap_or("0"), 16).unwrap_or(0);
+                MSYNC_RANGE.with(|m| m.set((map_off + (addr - lo) as u64, m.get().1)));
                 return std::path::Path::new(path)
                     .file_name()
                     .map(|s| s.to_string_lossy().to_string())
@@ -161,6 +169,7 @@ pub unsafe extern "C" fn msync(addr: *mut libc::c_void, len: usize, flags: i32) 
     }
     let r = libc::syscall(libc::SYS_msync, addr, len, flags) as i32;
     if watching() {
+        MSYNC_RANGE.with(|m| m.set((0, len as u64)));
         report("msync", addr_name(addr as usize), r as i64);
     }
     r
